@@ -274,7 +274,6 @@ Fixpoint free_all (cs : list (ptr * ptr)) (d : disk) : R unit :=
 Record hdr := mkHdr { h_ty : dtype; h_dims : list Z; h_n : Z; h_dc : ptr }.
 Definition blank_ptr : ptr := (0, DBS).            (* ADFI_set_blank_disk_pointer *)
 Definition hdr0 : hdr := mkHdr MT [] 0 blank_ptr.
-Definition prodZ (l : list Z) : Z := fold_left Z.mul l 1.
 Definition total_bytes (h : hdr) : Z := esz (h_ty h) * prodZ (h_dims h).
 
 (* ADFI_delete_data *)
